@@ -101,9 +101,8 @@ func (ex *Exec) visit(fr *frame, instr ssa.Instruction) {
 		ex.runDefers(fr)
 	case *ssa.Go:
 		f, args := ex.prepareCall(fr, &in.Call)
-		ex.nextG++
-		ex.pending = append(ex.pending, &pendingGo{id: ex.nextG, fn: f, args: args, site: ex.where(fr)})
-		ex.X.onGo(ex, f)
+		ex.yieldPoint()
+		ex.spawn(f, args, ex.where(fr))
 	case *ssa.Send:
 		ex.chanSend(fr, ex.get(fr, in.Chan).(*Chan), ex.get(fr, in.X))
 	case *ssa.Select:
